@@ -29,7 +29,7 @@ STR_VARS = {
     "platform_machine": ["x86_64", "AMD64", "arm64", "aarch64"],
     "platform_system": ["Linux", "Windows", "Darwin", 'Darwi"n'],   # a value with a double quote is written in single quotes (3046ca3)
     "platform_python_implementation": ["CPython", "PyPy", "Jython"],
-    "implementation_name": ["cpython", "pypy"],
+    "implementation_name": ["cpython", "pypy", "extrapy"],   # a VALUE holding the text "extra" is not a use of the variable
     "platform_version": ["10.0.19045", "#1 SMP Debian 5.10.0"],
 }
 ALIASES = {"os_name": "os.name", "sys_platform": "sys.platform", "platform_machine": "platform.machine",
@@ -72,6 +72,11 @@ def enc_env(e: dict[str, Any]) -> str:
     if "extra" in e:
         lines.append("extra=" + ",".join(e["extra"]))
     return "\n".join(lines)
+
+
+def mentions_extra(text: str) -> bool:
+    """does the marker text use the VARIABLE `extra` (a quoted value such as "extrapy" does not count)"""
+    return bool(re.search(r"\bextra\b", re.sub(r"""("[^"]*"|'[^']*')""", '""', text)))
 
 
 def q(rnd: random.Random, s: str) -> str:
